@@ -29,7 +29,7 @@ OKV == [v |-> "ok"]
 \* the specification kind that governs what a variant's node can hold
 KindOf(e) ==
   IF e.kind # "any" THEN e.kind
-  ELSE CASE e.variant \in {"text/parsed", "text/created", "merged/parsed", "text/detached"} -> "text"
+  ELSE CASE e.variant \in {"text/parsed", "text/created", "merged/parsed", "text/detached", "text/twins"} -> "text"
          [] e.variant = "attrtext/parsed" -> "attr"
          [] e.variant \in {"comment/parsed", "comment/created", "comment/detached"} -> "comment"
          [] e.variant \in {"cdata/parsed", "cdata/created", "cdata/detached"} -> "cdata"
@@ -121,11 +121,12 @@ C15Verdict(e) ==
 BuildVerdict(e) ==
   IF SubSeq(e.why, 1, 5) = "panic"
   THEN IF /\ "factory-panics-on-unstorable-data" \in Open
-          /\ e.variant \in {"text/created", "comment/created", "cdata/created"}
-          /\ MayRefuse(e.kind, e.s)
+          /\ e.variant \in {"text/created", "comment/created", "cdata/created", "text/detached", "comment/detached",
+                           "cdata/detached", "text/twins"}          \* every variant that is built with one of the factories
+          /\ MayRefuse(KindOf(e), e.s)
        THEN [c13 |-> [v |-> "factory-panics-on-unstorable-data", s |-> e.s, variant |-> e.variant], c16 |-> OKV, c15 |-> OKV]
        ELSE [c13 |-> [v |-> "VIOLATION", why |-> "factory / setter panicked", msg |-> e.why, s |-> e.s], c16 |-> OKV, c15 |-> OKV]
-  ELSE IF MayRefuse(e.kind, e.s) THEN [c13 |-> OKV, c16 |-> OKV, c15 |-> OKV]
+  ELSE IF MayRefuse(KindOf(e), e.s) THEN [c13 |-> OKV, c16 |-> OKV, c15 |-> OKV]
   ELSE [c13 |-> OKV, c15 |-> OKV, c16 |-> [v |-> "VIOLATION", why |-> "storable data refused by a factory / setter", msg |-> e.why, s |-> e.s]]
 
 \* ---------------------------------------------------------------------------------------------
